@@ -5,6 +5,7 @@
 import PV.Proofs.Window
 import PV.Proofs.C02aLemmas
 import PV.Proofs.C02bLemmas
+import PV.Proofs.C02cLemmas
 
 namespace PV
 open Scalar
@@ -143,5 +144,290 @@ theorem c02_gamma_count (r : Rep ℝ) (gap : Int) (wmax t : Nat) (h : ChainOK r 
     (calcGamma r.deltas r.idl wmax gap).getD t 0 = (Spec.pairsRep r gap t : ℝ) := by
   rw [c02_gamma_pairs r gap wmax t h ht]
   exact gammaRep_ones r gap t hones
+
+/-! ### the assembled statement: the model of `gamma_method` IS the Wolff specification -/
+
+section assembled
+open PV.RealS PV.C02c
+set_option linter.unusedSimpArgs false
+set_option linter.unusedVariables false
+
+local notation "𝟘" => (@OfNat.ofNat ℝ 0 (Scalar.instOfNatScalar 0))
+
+/-- **C02 (Γ table).** -/
+theorem c02_gamma_table_real (reps : List (Rep ℝ)) (gap : Int) (wmax : Nat) (h : ∀ r ∈ reps, ChainOK r gap) :
+    List.zipWith (· / ·)
+      (reps.foldl (fun acc r => addL acc (calcGamma r.deltas r.idl wmax gap)) (List.replicate wmax 0))
+      ((reps.foldl (fun acc r => addL acc (calcGamma (List.replicate r.idl.len (1 : ℝ)) r.idl wmax gap))
+          (List.replicate wmax 0)).map (fun x => if x < 1 then 1 else x))
+      = (List.range wmax).map (Spec.gamma reps gap) := by
+  apply List.ext_getElem
+  · simp [foldl_addL_length', calcGamma_length]
+  · intro t h1 h2
+    have ht : t < wmax := by simpa using h2
+    simp only [List.getElem_zipWith, List.getElem_map, List.getElem_range]
+    have hnum := foldl_addL_getD reps (fun r => calcGamma r.deltas r.idl wmax gap) wmax
+      (fun r _ => calcGamma_length _ _ _ _) t
+    have hden := foldl_addL_getD reps (fun r => calcGamma (List.replicate r.idl.len (1 : ℝ)) r.idl wmax gap) wmax
+      (fun r _ => calcGamma_length _ _ _ _) t
+    rw [List.getD_eq_getElem?_getD, List.getElem?_eq_getElem (by simp [foldl_addL_length', calcGamma_length, ht])] at hnum hden
+    simp only [Option.getD_some] at hnum hden
+    rw [hnum, hden]
+    -- numerator
+    have hn : (reps.map (fun r => (calcGamma r.deltas r.idl wmax gap).getD t 0)).sum
+        = (reps.map (fun r => Spec.gammaRep r gap t)).sum := by
+      congr 1
+      apply List.map_congr_left
+      intro r hr
+      exact c02_gamma_pairs r gap wmax t (h r hr) ht
+    -- denominator: the pair counts
+    have hd : (reps.map (fun r => (calcGamma (List.replicate r.idl.len (1 : ℝ)) r.idl wmax gap).getD t 0)).sum
+        = (((reps.map (fun r => Spec.pairsRep r gap t)).foldr (· + ·) 0 : Nat) : ℝ) := by
+      rw [natSum_cast, List.map_map]
+      congr 1
+      apply List.map_congr_left
+      intro r hr
+      obtain ⟨hgap, hinc, hlen, hpos, hmod, hst⟩ := h r hr
+      have hr' : ChainOK { r with deltas := List.replicate r.idl.len 1 } gap :=
+        ⟨hgap, hinc, by simp, hpos, hmod, hst⟩
+      have := c02_gamma_count { r with deltas := List.replicate r.idl.len 1 } gap wmax t hr' ht rfl
+      simpa [Spec.pairsRep] using this
+    rw [hn, hd]
+    unfold Spec.gamma
+    simp only [sum_eq, ofNatS_eq]
+    congr 1
+    set cnt := (reps.map (fun r => Spec.pairsRep r gap t)).foldr (· + ·) 0
+    by_cases hc : cnt = 0
+    · simp [hc]
+    · have : (1 : ℝ) ≤ (cnt : ℝ) := by exact_mod_cast Nat.one_le_iff_ne_zero.mpr hc
+      have h1 : ¬ ((cnt : ℝ) < 1) := not_lt.mpr this
+      simp [h1, Nat.max_eq_right (Nat.one_le_iff_ne_zero.mpr hc)]
+
+/-- **C02 (Γ table).**  The table the code accumulates (expanded fluctuations, shifted dot products, pair
+    counts clamped at 1, summed over replicas) is Γ(t) by configuration number for every lag. -/
+theorem c02_gamma_table (reps : List (Rep ℝ)) (gap : Int) (wmax : Nat) (h : ∀ r ∈ reps, ChainOK r gap) :
+    gammaTable reps wmax gap = (List.range wmax).map (Spec.gamma reps gap) := by
+  have := c02_gamma_table_real reps gap wmax h
+  unfold gammaTable
+  simp only [ofNat_eq_lit, lit_eq, Nat.cast_zero, Nat.cast_one]
+  exact this
+
+/-- `gammaEnsemble` is `determineGap`, then the table, then `analyseGamma` (definitional) -/
+theorem gammaEnsemble_eq_analyse {α : Type} [Transc α] (fp : FpConsts α) (ens : String) (reps : List (Rep α)) (S tauExp nSigma : α) :
+    gammaEnsemble fp ens reps S tauExp nSigma =
+      (determineGap ens reps).bind (fun gap =>
+        let wmax := (Py.fdiv ((reps.map (fun r => rLength r.idl gap)).foldl max 0) 2).toNat
+        analyseGamma fp ens (ofNatS ((reps.map (·.idl.len)).foldr (· + ·) 0)) wmax (gammaTable reps wmax gap) S tauExp nSigma) := rfl
+
+theorem ensemble_eq_analyse {α : Type} [Transc α] (fp : FpConsts α) (ens : String) (reps : List (Rep α)) (gap : Int) (wmax : Nat)
+    (S tauExp nSigma : α) :
+    Spec.ensemble fp ens reps gap wmax S tauExp nSigma =
+      Spec.analyse fp ens (ofNatS ((reps.map (·.idl.len)).foldr (· + ·) 0)) wmax
+        ((List.range wmax).map (Spec.gamma reps gap)) S tauExp nSigma := rfl
+
+theorem IsFirst.congr {p p' : Nat → Prop} {lo hi W : Nat} (h : IsFirst p lo hi W)
+    (hpp : ∀ m, lo ≤ m → m ≤ hi → (p m ↔ p' m)) : IsFirst p' lo hi W := by
+  obtain ⟨h1, h2, h3, h4⟩ := h
+  refine ⟨h1, h2, ?_, ?_⟩
+  · intro m hm1 hm2 hp'
+    exact h3 m hm1 hm2 ((hpp m hm1 (by omega)).mpr hp')
+  · intro hlt
+    exact (hpp W h1 h2).mp (h4 hlt)
+
+
+/-- **C02 (everything computed from the table).**  For every table of length `wmax ≥ 1` and all parameters:
+    ρ, τ_int(W) with the clamp, its error, δρ, the automatic window, the tau_exp analysis, the S = 0 branch,
+    the bias correction, the error and the error of the error computed by the model of the code are exactly
+    what the specification prescribes. -/
+theorem c02_analyse (fp : FpConsts ℝ) (ens : String) (eN : ℝ) (wmax : Nat) (G : List ℝ) (S tauExp nSigma : ℝ)
+    (hlen : G.length = wmax) (hw : 1 ≤ wmax) :
+    analyseGamma fp ens eN wmax G S tauExp nSigma = Spec.analyse fp ens eN wmax G S tauExp nSigma := by
+  unfold analyseGamma Spec.analyse
+  extract_lets zero g0 rho nTau0 nTau nDtau0 nDtau drhoAt biasTau drho1 jp dv tauL gw Gf rhoL rhof tauRaw nTauS tauS dtauS drhoS biasS nDtauS stop dvS tauSS g W t dvW
+  have hg0 : g0 = Gf 0 := rfl
+  have hrho : rho = rhoL := rfl
+  have hrholen : rho.length = wmax := by simp [rho, hlen]
+  have hnTau : nTau = nTauS := ntau_eq' rho fp.half fp.eps wmax hrholen hw
+  have hnTaulen : nTau.length = wmax := by rw [hnTau]; simp [nTauS]
+  have hnDtau : nDtau = nDtauS := by
+    have := ndtau_eq' nTau wmax hnTaulen (fun i t => t * 2 * Transc.sqrt (absS (ofNatS i + fp.half - t) / eN))
+    simp only [nDtau, nDtau0, nDtauS, dtauS, tauS]
+    rw [← hnTau]
+    exact this
+  have hdrho : ∀ i, 1 ≤ i → i < wmax → drhoAt i = drhoS i := by
+    intro i h1 h2
+    simp only [drhoAt, drhoS]
+    rw [c02_drho_slices rho wmax i eN hrholen h1 h2]
+  have hbias : ∀ n, biasTau n = biasS n := by
+    intro n; simp only [biasTau, biasS, tauS, hnTau]
+  have hnD : ∀ n, n < wmax → nDtau.getD n 𝟘 = dtauS n := by
+    intro n hn
+    rw [hnDtau]
+    simp [nDtauS, List.getD_eq_getElem?_getD, hn]
+  have hnDS : ∀ n, n < wmax → nDtauS.getD n 𝟘 = dtauS n := by
+    intro n hn
+    rw [← hnDtau]; exact hnD n hn
+  split
+  · rfl
+  · split
+    · -- tau_exp branch
+      by_cases hM : wmax / 2 ≤ 1
+      · simp [hM, bind, Except.bind, throw, throwThe, MonadExceptOf.throw]
+      · have hM2 : 2 ≤ wmax / 2 := by omega
+        simp only [hM, if_false]
+        obtain ⟨Wl, drho, hloop, hfirst, hdr⟩ := c02_texp_loop rho nSigma drhoAt wmax hM2
+        obtain ⟨k, hfind, hfirst'⟩ := specTexp_isFirst (fun n => rhof n - nSigma * drhoS n < 𝟘) stop wmax hM2
+          (fun n => by simp only [stop, decide_eq_true_eq])
+        have hcongr : IsFirst (fun n => rhof n - nSigma * drhoS n < 𝟘) 1 (max 1 (wmax / 2 - 2)) Wl := by
+          apply hfirst.congr
+          intro m hm1 hm2
+          have : m < wmax := by omega
+          rw [hdrho m hm1 this]
+        have hWk : Wl = k + 1 := IsFirst.unique hcongr hfirst'
+        have hWlt : Wl + 1 < wmax := by
+          have := hcongr.2.1
+          omega
+        simp only [jp, drho1, zero]
+        rw [hloop]
+        rw [hfind]
+        simp only [pure, Except.pure]
+        subst hWk
+        congr 1
+        have e1 : drho.getD (k + 1 + 1) 𝟘 = drhoS (k + 1 + 1) := by
+          rw [hdr]
+          have : k + 1 + 1 < wmax := hWlt
+          simp [List.getD_eq_getElem?_getD, this]
+          exact hdrho _ (by omega) this
+        have e2 : drho = List.map (fun i => if 1 ≤ i ∧ i ≤ k + 1 + 1 then drhoS i else 𝟘) (List.range wmax) := by
+          rw [hdr]
+          apply List.map_congr_left
+          intro i hi
+          have hi' : i < wmax := by simpa using hi
+          by_cases hc : 1 ≤ i ∧ i ≤ k + 1 + 1
+          · simp only [hc, and_self, if_true]; exact hdrho i hc.1 hi'
+          · simp only [hc, if_false]
+        have e3 : List.map (fun j => rho.getD (j + 1) 𝟘 - nSigma * drhoAt (j + 1)) (List.range (k + 1))
+            = List.map (fun j => rhof (j + 1) - nSigma * drhoS (j + 1)) (List.range (k + 1)) := by
+          apply List.map_congr_left
+          intro j hj
+          have hj' : j < k + 1 := by simpa using hj
+          rw [hdrho (j + 1) (by omega) (by omega)]
+        have e1' : (List.map (fun i => if 1 ≤ i ∧ i ≤ k + 1 + 1 then drhoS i else 𝟘) (List.range wmax)).getD (k + 1 + 1) 𝟘
+            = drhoS (k + 1 + 1) := by rw [← e2]; exact e1
+        simp only [hbias, e2, e3]
+        simp only [hnTau, hnDtau, hrho, hg0, rhof]
+        simp only [hnDS (k + 1) (by omega), e1']
+    · split
+      · -- S = 0
+        simp only [pure, Except.pure, hnTau, hnDtau, hrho, hg0, dv, dvS]
+      · -- automatic windowing
+        by_cases hw1 : wmax ≤ 1
+        · have : wmax = 1 := by omega
+          subst this
+          simp [windowLoop, throw, throwThe, MonadExceptOf.throw]
+        · have hw2 : 2 ≤ wmax := by omega
+          simp only [hw1, if_false]
+          have htauLlen : tauL.length = wmax - 1 := by simp [tauL, hnTaulen]
+          have hgw : gw = (List.range (wmax - 1)).map (fun k => g (k + 1)) := by
+            apply List.ext_getElem
+            · simp [gw, htauLlen]
+            · intro i h1 h2
+              have hi : i < wmax - 1 := by simpa using h2
+              simp only [gw, List.getElem_map, List.getElem_zip, List.getElem_range, g, tauSS, tauS, tauL]
+              simp only [List.getElem_drop, ← hnTau]
+              have : (nTau.getD (i + 1) 𝟘) = nTau[1 + i]'(by omega) := by
+                simp [List.getD_eq_getElem?_getD, Nat.add_comm, List.getElem?_eq_getElem (by omega : i + 1 < nTau.length)]
+              rw [this]
+          have hwin := c02_window gw wmax hw2
+          have hcongr : Spec.window (fun n => gw.getD (n - 1) 𝟘) wmax = W := by
+            apply window_congr
+            intro n hn1 hn2
+            rw [hgw]
+            have : n - 1 < wmax - 1 := by omega
+            simp [List.getD_eq_getElem?_getD, this]
+            congr 1 <;> omega
+          rw [hwin, hcongr]
+          simp only [pure, Except.pure]
+          have hWfirst := specWindow_isFirst g wmax hw2
+          have hW1 : 1 ≤ W := hWfirst.1
+          have hW2 : W ≤ wmax - 1 := hWfirst.2.1
+          congr 1
+          have e1 : zero.set W (drhoAt W) = List.map (fun i => if i = W then drhoS i else 𝟘) (List.range wmax) := by
+            apply List.ext_getElem
+            · simp [zero]
+            · intro i h1 h2
+              have hi : i < wmax := by simpa using h2
+              simp only [zero, List.getElem_set, List.getElem_replicate, List.getElem_map, List.getElem_range]
+              by_cases hiW : W = i
+              · subst hiW; simp only [if_true]; exact hdrho _ hW1 hi
+              · have : ¬ (i = W) := fun e => hiW e.symm
+                simp only [hiW, this, if_false]
+          have e2 : List.take W gw = List.map (fun k => g (k + 1)) (List.range W) := by
+            rw [hgw, ← List.map_take, List.take_range, Nat.min_eq_left hW2]
+          simp only [hbias, e1, e2, hnTau, hnDtau, hrho, hg0, t, dvW]
+          simp only [hnDS W (by omega)]
+
+/-- **C02 (per ensemble): model = Wolff specification.**  Whenever the chains of the ensemble have a common
+    spacing and are well-formed, the analysis the code performs is the specified estimator, for every
+    number of replicas, every chain layout, every parameter choice. -/
+theorem c02_ensemble (fp : FpConsts ℝ) (ens : String) (reps : List (Rep ℝ)) (gap : Int) (S tauExp nSigma : ℝ)
+    (hgap : determineGap ens reps = .ok gap) (hok : ∀ r ∈ reps, ChainOK r gap)
+    (hw : 1 ≤ Spec.wMax reps gap) :
+    gammaEnsemble fp ens reps S tauExp nSigma
+      = Spec.ensemble fp ens reps gap (Spec.wMax reps gap) S tauExp nSigma := by
+  rw [gammaEnsemble_eq_analyse, ensemble_eq_analyse, hgap]
+  simp only [Except.bind]
+  have htab : gammaTable reps (Spec.wMax reps gap) gap
+      = (List.range (Spec.wMax reps gap)).map (Spec.gamma reps gap) :=
+    c02_gamma_table reps gap (Spec.wMax reps gap) hok
+  show analyseGamma fp ens _ (Spec.wMax reps gap) (gammaTable reps (Spec.wMax reps gap) gap) S tauExp nSigma = _
+  rw [htab]
+  exact c02_analyse fp ens _ _ _ S tauExp nSigma (by simp) hw
+
+theorem mapM_congr_except {ε β γ : Type} (l : List β) (f g : β → Except ε γ) (h : ∀ x ∈ l, f x = g x) :
+    l.mapM f = l.mapM g := by
+  induction l with
+  | nil => rfl
+  | cons x xs ih =>
+    simp only [List.mapM_cons]
+    rw [h x (by simp), ih (fun y hy => h y (by simp [hy]))]
+
+/-- **C02: the model of `gamma_method` is the Wolff specification.**  For every observable whose ensembles
+    have well-formed chains with a common spacing (any number of ensembles, replicas, covariance inputs; any
+    layout: contiguous, strided, gapped, irregular; any S, tau_exp, N_sigma per ensemble), the whole result
+    record of the model of the code - per ensemble τ_int, its error, the error, the error of the error, the
+    window, ρ, δρ, the cumulative τ_int(W) arrays, and the total error with the covariance-input terms -
+    equals the specification written by configuration number from the papers.  The executable model is what
+    the harness compares with pyerrors on every generated case. -/
+theorem c02_formulas (fp : FpConsts ℝ) (o : Obs ℝ) (p : GmParams ℝ)
+    (h : ∀ e ∈ o.mcNames, ∀ gap, determineGap e (o.eContent e) = .ok gap →
+      (∀ r ∈ o.eContent e, ChainOK r gap) ∧ 1 ≤ Spec.wMax (o.eContent e) gap) :
+    gammaMethod fp o p = Spec.gammaMethod fp o p := by
+  unfold gammaMethod Spec.gammaMethod
+  have hm : o.mcNames.mapM (fun e => gammaEnsemble fp e (o.eContent e) (p.S e) (p.tauExp e) (p.nSigma e))
+      = o.mcNames.mapM (fun e => do
+          let reps := o.eContent e
+          let gap ← determineGap e reps
+          Spec.ensemble fp e reps gap (Spec.wMax reps gap) (p.S e) (p.tauExp e) (p.nSigma e)) := by
+    apply mapM_congr_except
+    intro e he
+    cases hg : determineGap e (o.eContent e) with
+    | error err =>
+      rw [gammaEnsemble_eq_analyse, hg]
+      simp only [hg, bind, Except.bind]
+    | ok gap =>
+      obtain ⟨hok, hw⟩ := h e he gap hg
+      rw [c02_ensemble fp e (o.eContent e) gap _ _ _ hg hok hw]
+      simp only [hg, bind, Except.bind]
+  rw [hm]
+
+/-- non-vacuity: an irregular chain with common spacing 2 satisfies `ChainOK` -/
+example : ChainOK { name := "A|r1", idl := .list [1, 3, 5, 9], deltas := [1, -1, 2, -2], rvalue := 0 } 2 := by
+  refine ⟨by decide, by decide, by simp [Idl.len, Idl.toList], by simp [Idl.len, Idl.toList], ?_, trivial⟩
+  intro c hc
+  simp [Idl.toList] at hc
+  rcases hc with rfl | rfl | rfl | rfl <;> decide
+
+end assembled
 
 end PV
